@@ -361,7 +361,7 @@ Theorem each_scope_R_array D bp p l n i v :
 Proof.
   intros Hw Hn Hi. apply each_scope_R. intros p' Hp'. inversion Hp'; subst p'.
   rewrite walk_app, Hw. cbn [walk get_data]. rewrite parse_usize_n_to_dec by exact Hi.
-  rewrite Nat2N.id, Hn. reflexivity.
+  rewrite nth_N_spec, Nat2N.id, Hn. reflexivity.
 Qed.
 
 (* object keys: strictly sorted keys are found by map_get at their position *)
